@@ -170,6 +170,20 @@ def report_order(v, rustfmt, base):
                             str(d / "a.rs")], cwd=d, env=core.run_env({"HOME": str(d)}),
                            capture_output=True, text=True, timeout=60)
         outs.append((r.returncode, r.stdout, r.stderr))
+    # the warnings about files of a --file-lines selection that are not formatted
+    for nm in "xyzuvw":
+        (d / f"{nm}.rs").write_text("fn k() {}\n")
+    sel = json.dumps([{"file": str(d / f"{nm}.rs"), "range": [1, 1]} for nm in "xyzuvw"])
+    warns = []
+    for k in range(6):
+        r = subprocess.run([rustfmt, "--unstable-features", "--check", "--file-lines", sel,
+                            str(d / "b.rs")], cwd=d, env=core.run_env({"HOME": str(d)}),
+                           capture_output=True, text=True, timeout=60)
+        warns.append(r.stderr)
+    if len(set(warns)) != 1:
+        v.violation("repeat:file-lines-warnings",
+                    "six runs of the same `rustfmt --file-lines ..` print their warnings in different "
+                    "orders", {"stderr": warns[:3]})
     if len(set(outs)) != 1:
         orders = [[ln.strip().rsplit("/", 1)[-1].split(":")[0] for ln in e.split("\n")
                    if ln.strip().startswith("-->")] for (_, _, e) in outs]
